@@ -27,7 +27,7 @@ CLAUSES = {
 MC_CFG = """CONSTANT Tier = "%s"
 CONSTANT Coerce = FALSE
 CONSTANT Deviations = {}
-CONSTANT SchemaGaps = {"flattened", "mapkeys", "discriminated"}
+CONSTANT SchemaGaps = {"flattened", "mapkeys", "discriminated", "patoverlap"}
 CONSTANT VocabularyGaps = {}
 SPECIFICATION Spec
 INVARIANT ResultShape
